@@ -63,7 +63,7 @@ def budget(tier):
 
 
 @st.composite
-def st_case(draw, tier, p_restricted=0, p_mat=1):
+def st_case(draw, tier, p_restricted=0, p_mat=1, p8=True):
     S = draw(st.sampled_from([0, 0, 2]))
     T = 1
     up_cfg = Cfg(
@@ -123,9 +123,20 @@ def st_case(draw, tier, p_restricted=0, p_mat=1):
     if S == 0 and draw(st.integers(0, 4)) == 0:
         # join with a fixed operand living in S
         cands = [i for i, l in enumerate(leaves) if l[3] == S and i not in leaf_indices(base)]
-        cands = [i for i in cands if all(t.is_key for t in frozenset(leaves[i][1]) & cols)]
+        if p8 or draw(st.booleans()):
+            # P8: operands share only key columns (for shared non-key columns it is unspecified whose values win, so
+            # checks that compare content need this; purely structural checks pass p8=False)
+            cands = [i for i in cands if all(t.is_key for t in frozenset(leaves[i][1]) & cols)]
         if cands:
             i = draw(st.sampled_from(cands))
+            extra = [t for t in leaves[i][1] if t not in cols]
+            extra = [t for t in extra if not t.is_key] or extra
+            if not p8 and extra and cols and draw(st.booleans()):
+                # the tree calculates (downstream of the transfer) a column that the fixed operand also has
+                from vf.core.tags import sorted_tags as _st
+
+                base = ("calc", base, draw(st.sampled_from(extra)), ("neg", ("ref", draw(st.sampled_from(_st(cols))))))
+                cols = schema(base, leaves)
             allc = cols | frozenset(leaves[i][1])
             pred = draw(st_pred(allc, 1)) if allc and draw(st.booleans()) else None
             final = ("join", None, ("leaf", i), pred, draw(st.booleans()))
